@@ -12,6 +12,8 @@ def _diag(f):
 def sig_c08(f):
     k = f["kind"]
     d = _diag(f)
+    if k == "R_vardir":
+        return "vardir:include-dir-stamped-into-shared-vars"
     if k == "R_c08_deepcopy":
         miss = d.get("deepcopy_missing") or []
         return "deepcopy-drops:" + ",".join(miss) if miss else k + ":undiagnosed"
@@ -29,8 +31,12 @@ def sig_c08(f):
 def sig_c09(f):
     k = f["kind"]
     d = _diag(f)
+    if k == "R_vardir":
+        return "vardir:include-dir-stamped-into-shared-vars"
     if k == "R_c09_det":
         cl = d.get("c09") or []
+        if cl == ["compiled-only"]:
+            return "nondet:compiled-only"   # same table, different evaluated variables / stamped directories
         if cl and set(cl) <= _ORDER_CLASSES:
             return "nondet:merge-order"
         return "nondet:" + (",".join(cl) if cl else "undiagnosed")
@@ -40,7 +46,7 @@ def sig_c09(f):
 _COMMON_ASSUME = [
     "YAML decoding and the file system are outside the model: the model's input is what the real decoder produced for each file on its own; templates in taskfile:/dir: of include statements are modelled on the family {{.NAME}} / {{.NAME | default \"x\"}} (variables = process environment overlaid with the static globals of the including file; the driver checks its reading of every template against the real templater)",
     "paths are slash separated; filepath.Join/Clean/Dir are modelled on that domain (no symlinks, no special-dir variables)",
-    "ast.Var.Dir (working directory of sh: variables) is abstracted away",
+    "ast.Var.Dir (working directory of sh: variables) is carried in front of every variable value (\"<Dir>|<value>\"); the in-place variant of Vars.Merge is modelled (v_inplace) but the general theorems assume the copy variant, discharged from the extracted fact vars_merge_dir_inplace",
     "a failing Taskfile.Merge is modelled as a sticky error of the including file; graph.Merge's first error is computed separately (merge_err)",
 ]
 _COMMON_TRUST = ["modelled, not verified: yaml.v3, text/template, dominikbraun/graph (AddVertex/AddEdge/PreventCycles/TopologicalSort), orderedmap"]
@@ -52,7 +58,7 @@ PROPS = {
         more_src=["Properties/C08Current.v"],
         support=["Merge/Model.vo", "Merge/Spec.vo"], run_targets=["Run/MergeCases.vo"],
         drivers=[dict(name="merge", extra="mode=c08", n_quick=240, n_thorough=3000, shard=30,
-                      results={"R_read": "agree", "R_merge": "agree", "R_wf": "agree",
+                      results={"R_read": "agree", "R_merge": "agree", "R_wf": "agree", "R_vardir": "mon",
                                "R_c08_present": "mon", "R_c08_refs": "mon", "R_c08_attrs": "mon", "R_c08_place": "mon",
                                "R_c08_aliases": "mon", "R_c08_default": "mon", "R_c08_dropped": "mon", "R_c08_errors": "mon", "R_c08_exec": "mon",
                                "R_c08_deepcopy": "mon"})],
@@ -63,7 +69,8 @@ PROPS = {
              "R_merge: table built by the real Executor.Setup (every field of every ast.Task by reflection, vars, env, output) or its error class is one of the model's outcomes merge_all current_variant G pi sigma over all topological orders pi and edge orders sigma. "
              "R_c08_*: the monitors of Properties/C08.v evaluated on the real table; R_c08_exec: up to 3 callable names per tree run through the real Executor (origin marker, pwd, include vars, markers of referenced tasks); "
              "R_wf: the graph is in the theorems' domain (wf_graphb, wf_outb, a topological order exists). R_c08_deepcopy: extracted field lists of Task/Cmd/Dep.DeepCopy and compiledTask vs the struct fields (cross-checked dynamically by copying a fully populated ast.Task). "
-             "directed family (every 5th tree): task names / namespace keys containing ':' that collide, or nearly collide, with the qualified name of an included task (parent task `<ns>:<task>`, second include keyed `<ns1>:<ns2>`, the colliding name flattened in from a sibling): a collision must be reported (EDup), never overwrite. "
+             "directed families: a non-flattened include that excludes the default task of a file defining one (every 10th tree); (every 5th tree) task names / namespace keys containing ':' that collide, or nearly collide, with the qualified name of an included task (parent task `<ns>:<task>`, second include keyed `<ns1>:<ns2>`, the colliding name flattened in from a sibling): a collision must be reported (EDup), never overwrite. "
+             "R_vardir (monitor; every 10th tree in C08, every 6th in C09): a diamond whose shared file is included once in long form with dir: and once in short form and has dynamic (sh:) globals is loaded together with its twin in which the long-form includer is renamed (app.yml <-> zapp.yml, which flips the processing order of the siblings); with the file name normalised the two digests (directory stamped on every global / IncludedTaskfileVars variable, value of every dynamic variable in every task) must be equal. "
              "distinct = distinct file sets",
         assumptions=_COMMON_ASSUME + ["task names, namespaces and aliases are non-empty and do not start with ':' (wf_graph)"],
         trusted=_COMMON_TRUST,
@@ -74,12 +81,12 @@ PROPS = {
         more_src=["Properties/C09Current.v"],
         support=["Merge/Model.vo", "Merge/Spec.vo"], run_targets=["Run/MergeCases.vo"],
         drivers=[dict(name="merge", extra="mode=c09", n_quick=80, n_thorough=1000, shard=10,
-                      results={"R_read": "agree", "R_merge": "agree", "R_wf": "agree", "R_c09_det": "mon", "R_c09_stable": "mon"})],
+                      results={"R_read": "agree", "R_merge": "agree", "R_wf": "agree", "R_vardir": "mon", "R_c09_det": "mon", "R_c09_stable": "mon"})],
         signature=sig_c09,
         rule="a case = one generated include tree (3-5 files, mostly siblings of the root with overlapping variable and task names, diamonds, the same file twice) loaded 40 times by Executor.Setup in one process; "
              "each load is dumped canonically (task table in order with every field, vars, env, output, plus fast-compiled command lines and variable values, and the working directory stamped on every global variable). "
              "R_c09_det (monitor): all 40 dumps are identical. R_c09_stable (monitor of C09_partial): all dumps agree on the set of keys and, per origin, on commands, deps, dir, include vars and every attribute. R_merge: every distinct dump is one of the model's outcomes merge_all current_variant G pi sigma (pi over all topological orders, sigma over all edge orders). "
-             "Every 3rd tree is directed: a file reached through two include statements passing different vars (the same file twice, diamond) has a nested include whose taskfile:/dir: is a template over a variable set by the include statements (not visible there: the default applies), by the environment, by the file's own globals or by the root's globals; the model predicts the resolved path (R_read) and the 40 loads must agree. "
+             "Every 3rd tree is directed: a file reached through two include statements passing different vars (the same file twice, diamond) has a nested include whose taskfile:/dir: is a template over a variable set by the include statements (not visible there: the default applies), by the environment, by the file's own globals or by the root's globals; the model predicts the resolved path (R_read) and the 40 loads must agree. Every 6th tree is a diamond whose shared file is included once in long form with dir: and once in short form and has dynamic (sh:) globals: the digest holds the directory stamped on every variable (globals and IncludedTaskfileVars) and the value every dynamic variable evaluates to per task. "
              "distinct = distinct file sets",
         assumptions=_COMMON_ASSUME,
         trusted=_COMMON_TRUST,
